@@ -14,7 +14,8 @@ i.e. after the four `fix:` commits for the defects D8).  Specification vocabular
 * `Root.members`, `Root.base` — where a search starts and the depth the code gives its members
   (a section/source searched from itself: depth 0; the top level of a File or Block: depth 1);
 * `WF f`          — ids unique in the file, below the id supply; cached `_sec_parent`s are the owners;
-* `Reachable f`   — `f` is the result of some history of create / link / unlink / delete / reopen operations.
+* `Reachable f`   — `f` is the result of some history of create / link / unlink / delete / reopen / copy_section
+                    (id-renewing, deep or shallow, anywhere — also into the copied section's own subtree) operations.
 -/
 
 namespace Nix.C13
@@ -63,7 +64,7 @@ theorem find_unlimited (root : Root) (filt : Node → Bool) (h : heightL root.me
   rw [e, List.mem_filter, (levels_perm _ _ (Nat.le_refl _)).mem_iff, and_comm]
 
 /-- **every history leads to a well-formed file**: whatever sequence of create / set or delete metadata /
-link / unlink source / delete / reopen operations is applied to the empty file (refused operations change
+link / unlink source / delete / reopen / copy_section(keep_id=False) operations is applied to the empty file (refused operations change
 nothing), ids stay unique and every `_sec_parent` held by a creation handle is the owner's id -/
 theorem reachable_wf (f : File) (h : Reachable f) : WF f := wf_of_reachable h
 
@@ -311,6 +312,52 @@ def exSources : File :=
 
 example : Reachable exSources := ⟨_, rfl⟩
 example : (sourceParent exSources 3).toOption = some (some 2) := by decide
-example : (parentBlock exSources 4).toOption = some 1 := by decide
+
+/-- z / a / a, then z copied (ids renewed) into z/a/a — i.e. into its own subtree — and z/a copied to the top
+as "a": names repeat along and across the paths, the copies are reached through re-fetched handles -/
+def exCopy : File :=
+  run {} [.createSection none "z" "t", .createSection (some 0) "a" "t", .createSection (some 1) "a" "t",
+          .copySection 0 (some 2) "" true, .copySection 1 none "" true, .reopen]
+
+example : Reachable exCopy := ⟨_, rfl⟩
+
+private def mkN (k : Nat) (nm : String) (cs : List Node) : Node := .mk ⟨k, nm, "t", none, none⟩ cs
+private def c3 : Node := mkN 3 "z" [mkN 4 "a" [mkN 5 "a" []]]
+private def c2 : Node := mkN 2 "a" [c3]
+private def c0 : Node := mkN 0 "z" [mkN 1 "a" [c2]]
+private def d7 : Node := mkN 7 "a" [mkN 8 "a" [mkN 9 "z" [mkN 10 "a" [mkN 11 "a" []]]]]
+private theorem exCopy_sections : exCopy.sections = [c0, d7] := by rfl
+
+/-- the copy of z (key 0 + 3) lies below z/a/a (key 2), where `copy_section` put it — not below the z/a
+whose child is also *named* like it, and not at the top where the original is -/
+example : Shape.sectionParentG Generated.FindShape.sectionParent exCopy 3 false = .ok (some 2) :=
+  (parent_code exCopy (reachable_wf exCopy ⟨_, rfl⟩) false).2 c2
+    (by rw [exCopy_sections]; simp [nodesL, Node.nodes, c0, c2, mkN]) c3 (by simp [c2, mkN, Node.children])
+/-- the second copy (z/a with everything below it, keys + 6) is a top-level section -/
+example : Shape.sectionParentG Generated.FindShape.sectionParent exCopy 7 false = .ok none :=
+  (parent_code exCopy (reachable_wf exCopy ⟨_, rfl⟩) false).1 d7 (by rw [exCopy_sections]; simp)
+
+/-! the extracted search methods (all four) on `exSections` (z, a at the top; z/a; z/a/a; a/a): limit 0 from a
+File / Block is empty; limit 1 the top level; `None` everything, breadth first; with a filter -/
+private def keysOf (r : Except Err (List Node)) : Option (List Nat) := r.toOption.map (·.map Node.key)
+example : ∀ w ∈ Generated.FindShape.wrappers,
+    keysOf (Shape.findW w (.top exSections.sections) (fun _ => true) (some 0)) = some [] :=
+  fun w hw => by rw [(find_code w hw _ _).1 0]; rfl
+example : ∀ w ∈ Generated.FindShape.wrappers,
+    keysOf (Shape.findW w (.top exSections.sections) (fun _ => true) (some 1)) = some [0, 1] :=
+  fun w hw => by rw [(find_code w hw _ _).1 1, exSections_sections]; rfl
+example : ∀ w ∈ Generated.FindShape.wrappers,
+    keysOf (Shape.findW w (.top exSections.sections) (fun n => n.type == "t2") none) = some [3] :=
+  fun w hw => by rw [(find_code w hw _ _).2 (by rw [exSections_sections]; decide), exSections_sections]; decide
+example : ∀ w ∈ Generated.FindShape.wrappers,
+    keysOf (Shape.findW w (.node n2) (fun _ => true) (some 0)) = some [2] :=
+  fun w hw => by rw [(find_code w hw _ _).1 0]; rfl
+/-- find_related of z/a (key 2): parent z, no siblings, itself, its child -/
+example : keysOf (Shape.findRelatedG Generated.FindShape.sectionParent Generated.FindShape.related exSections 2 false
+    (fun _ => true)) = some [0, 2, 3] := by
+  show keysOf (Shape.findRelatedG _ _ exSections n2.key false _) = _
+  rw [(find_related_code exSections (reachable_wf exSections ⟨_, rfl⟩) false _).2 (.mk ⟨0, "z", "t", none, none⟩ [n2])
+    (by rw [exSections_sections]; simp [nodesL, Node.nodes]) n2 (by simp [Node.children])]
+  rfl
 
 end Nix.C13
